@@ -29,6 +29,10 @@ def neighbourhood(tick, ks):
     return sorted(x for x in c if x > 2.0 ** -20)
 
 
+class _Truthy(int):
+    """an is_buy flag that is truthy / falsy without being the bool singletons (numpy.bool_, 1 / 0 behave like this)"""
+
+
 def cases(tier):
     ks = list(range(0, 41)) + [1000, 12345, 30000000]
     if tier != "quick":
@@ -45,6 +49,17 @@ def cases(tier):
     for tick in (1.0, 0.1):
         for is_buy in (True, False):
             yield (tick, True, None, is_buy)
+    # negative limit prices (accepted by pams with a warning): the same rules hold below zero
+    for tick in (0.25, 1.0, 2.5):
+        for j in range(1, 81):
+            for is_buy in (True, False):
+                yield (tick, True, -j / 8, is_buy)
+    # side flags that are truthy / falsy without being True / False (what a numpy comparison or 1 / 0 gives)
+    import numpy
+    for tick in (0.5, 1.0, 2.5):
+        for p in (100.25, 100.5, 101.0, 99.75, 7.3):
+            for flag in (1, 0, numpy.bool_(True), numpy.bool_(False)):
+                yield (tick, True, p, flag)
 
 
 def fn(case, wit):
